@@ -57,9 +57,10 @@ theorem beam_rebuild (ext : Ext ℝ) (b : Beam ℝ) (wp : ℝ) (pol : PM.Pol) (c
     (ha : StableAngles b) :
     (b.toCfg wp true).tryAsBeam ext pol c = .ok (rebuilt b pol) := by
   simp only [Beam.toCfg, BeamCfg.tryAsBeam, Beam.setAngles, Beam.new, rebuilt,
-    normAngle_deg ha.phi0 ha.phi1, normAngleSigned_deg ha.th0 ha.th1]
+    wrap360_of_mem ha.phi0 ha.phi1, normAngle_deg ha.phi0 ha.phi1,
+    normAngleSigned_deg ha.th0 ha.th1]
 
-theorem rebuilt_toCfg (b : Beam ℝ) (wp : ℝ) (pol : PM.Pol) (hw : wp ≤ 0) :
+theorem rebuilt_toCfg (b : Beam ℝ) (wp : ℝ) (pol : PM.Pol) (hw : wp ≤ 0) (ha : StableAngles b) :
     (rebuilt b pol).toCfg (-(Transc.abs (sigfigs (wp / micro))) * micro) true = b.toCfg wp true := by
   simp only [Beam.toCfg, rebuilt, Beam.wavelength, wl_roundtrip, nano_roundtrip, deg_roundtrip,
     micro_roundtrip, sigfigs_idem, if_true, abs_eq]
@@ -175,9 +176,9 @@ theorem config_fixpoint_aux (ext : Ext ℝ) (s : Setup ℝ) (hc : Canonical s)
   simp only [Outcome.map, asConfig, asConfigG, Outcome.ok.injEq]
   have h1 := crystal_fix s.crystal
   have h2 := rebuilt_toCfg s.signal s.signalWaistPos
-    (asConfigG true s).crystal.toSetup.pmType.signalPol hc.wps
+    (asConfigG true s).crystal.toSetup.pmType.signalPol hc.wps hc.signal
   have h3 := rebuilt_toCfg s.idler s.idlerWaistPos
-    (asConfigG true s).crystal.toSetup.pmType.idlerPol hc.wpi
+    (asConfigG true s).crystal.toSetup.pmType.idlerPol hc.wpi hc.idler
   simp only [asConfigG] at h1 h2 h3 ⊢
   rw [h1, h2, h3, hppc]
   simp [PumpCfg.asBeam, Beam.new, Beam.wavelength, wl_roundtrip, nano_roundtrip, micro_roundtrip,
